@@ -49,6 +49,11 @@ var c13classes = []c13class{
 	{"invalid-json", func(ip string, p int) string { return `{"ip":"10.0.` }, []string{"json"}, "both"},
 	{"not-an-object", func(ip string, p int) string { return `["10.0.0.1",80]` }, []string{"json"}, "both"},
 	{"blank-line", func(ip string, p int) string { return `` }, []string{"json"}, "both"},
+	// address spellings that only a more liberal parser accepts (IPv6 zones, a zone on an IPv4-mapped address)
+	{"addr-v6-zone", func(ip string, p int) string { return fmt.Sprintf(`{"ip":"fe80::1%%eth0","port":%d}`, p) }, []string{"ip"}, "both"},
+	{"addr-mapped-zone", func(ip string, p int) string { return fmt.Sprintf(`{"ip":"::ffff:%s%%eth0","port":%d}`, ip, p) }, []string{"ip"}, "both"},
+	{"addr-trailing-dot", func(ip string, p int) string { return fmt.Sprintf(`{"ip":"%s.","port":%d}`, ip, p) }, []string{"ip"}, "both"},
+	{"addr-leading-zero", func(ip string, p int) string { return fmt.Sprintf(`{"ip":"010.1.2.3","port":%d}`, p) }, []string{"ip"}, "both"},
 	// two defects in one line are still one entry: one error record (either cause may be stated)
 	{"empty-object", func(ip string, p int) string { return `{}` }, []string{"ip", "port"}, "ipport"},
 	{"both-bad", func(ip string, p int) string { return `{"ip":"10.0.0.300","port":65536}` }, []string{"ip", "port"}, "ipport"},
